@@ -74,6 +74,7 @@ class Sim:
         self.stats: dict = {}
         self.probes: dict = {}
         self.cases: set = set()
+        self.state_hashes: set = set()
         self._pending_abort = None
         self.known_hits: dict = {}
         self.word: list = []
@@ -309,9 +310,19 @@ class Sim:
             return out
         self._post_checks(op, out, pre, post)
         self._log(op, out, post, pre)
+        if self.step_no % 25 == 24:
+            import gc
+
+            if self.io is None:
+                gc.collect()
+            else:
+                from .seams import quiesce_io
+
+                quiesce_io()
         return out
 
     def _log(self, op, out, post, pre):
+        self.state_hashes.add(observe.state_hash(post))
         em = [(e[1], repr(e[2]), e[3]) for e in self.emissions[pre["nem"]:]]
         self.log.append((
             self.step_no, op["op"], repr(out.get("resolved")), out["cls"], out.get("exc"),
